@@ -388,6 +388,8 @@ enum Load {
     Merge(String, String, Config),
     /// load both (n and 4n items); the cpu times are compared
     Scale(String, String),
+    /// load the document, then annotate_from_file the file
+    AnnotateFile(String, String),
     None,
 }
 
@@ -589,7 +591,111 @@ fn prepare(req: &Sx, dir: &str, cache: &mut Cache) -> Case {
             Case { load: Load::Merge(first, second, Config::default().with_strip_temp_ids(req.nth(1).int() != 0)), input_bytes: n, report: report_annotations, probe: true, note: "merge" }
         }
         10 => prepare_files(req, dir),
+        11 => prepare_ann_offset(req, dir),
+        12 => {
+            // (12 base header variant): the length header of one array / map / string of the CBOR file rewritten
+            let base = req.nth(1).int();
+            let files = cache.files(base, "cbor", dir).clone();
+            let b = files.iter().find(|(n, _)| n.ends_with(".cbor")).map(|(_, c)| c.clone()).unwrap_or_default();
+            let hs = cbor_headers(&b);
+            if hs.is_empty() {
+                return Case { load: Load::None, input_bytes: 0, report: report_none, probe: false, note: "cbor_no_headers" };
+            }
+            let (pos, major, hdr, len) = hs[(req.nth(2).int().max(0) as usize) % hs.len()];
+            let (v, size): (u64, usize) = match req.nth(3).int() {
+                0 => (u64::MAX, 8),
+                1 => (1 << 63, 8),
+                2 => (1 << 32, 8),
+                3 => (0xffff_ffff, 4),
+                4 => (0x7fff_ffff, 4),
+                5 => (65536, 4),
+                6 => (65535, 2),
+                7 => (256, 2),
+                8 => (255, 1),
+                9 => (len, 1),
+                10 => (len, 2),
+                11 => (len, 4),
+                12 => (len, 8),
+                13 => (0, 99),
+                14 => (len + 1, if len + 1 < 24 { 0 } else { 1 }),
+                15 => (len.saturating_sub(1), if len < 25 { 0 } else { 1 }),
+                16 => (0, 0),
+                17 => (0x0100_0000, 4),
+                18 => (1 << 40, 8),
+                _ => (23, 0),
+            };
+            let mut nb = b[..pos].to_vec();
+            nb.extend_from_slice(&cbor_header(major, v, size));
+            nb.extend_from_slice(&b[pos + hdr..]);
+            write_file(dir, "m.store.stam.cbor", &nb);
+            let note = match major {
+                2 | 3 => "cbor_len_string",
+                4 => "cbor_len_array",
+                _ => "cbor_len_map",
+            };
+            Case { load: Load::File(format!("{}/m.store.stam.cbor", dir), Config::default()), input_bytes: nb.len(), report: report_none, probe: false, note }
+        }
         _ => Case { load: Load::None, input_bytes: 0, report: report_none, probe: false, note: "unknown" },
+    }
+}
+
+/// (11 mode tkind b e): annotation A2 = AnnotationSelector(A1, offset b..e) where A1's own target
+/// is of kind tkind; mode 0 STAM JSON store, 1 annotate_from_file, 2 STAM CSV
+fn prepare_ann_offset(req: &Sx, dir: &str) -> Case {
+    let mode = req.nth(1).int();
+    let tkind = req.nth(2).int();
+    let (b, e) = (req.nth(3).int(), req.nth(4).int());
+    let text = |b: i64, e: i64| format!(r#"{{"@type":"TextSelector","resource":"r","offset":{{"@type":"Offset","begin":{{"@type":"BeginAlignedCursor","value":{}}},"end":{{"@type":"BeginAlignedCursor","value":{}}}}}}}"#, b, e);
+    let res = |r: &str| format!(r#"{{"@type":"ResourceSelector","resource":"{}"}}"#, r);
+    let dset = r#"{"@type":"DataSetSelector","annotationset":"s"}"#.to_string();
+    let target_json = match tkind {
+        0 => res("r"),
+        1 => dset.clone(),
+        2 => r#"{"@type":"DataKeySelector","annotationset":"s","key":"k"}"#.to_string(),
+        3 => r#"{"@type":"AnnotationDataSelector","annotationset":"s","data":"D0"}"#.to_string(),
+        4 => r#"{"@type":"AnnotationSelector","annotation":"A0"}"#.to_string(),
+        5 => text(0, 5),
+        6 => r#"{"@type":"AnnotationSelector","annotation":"A0","offset":{"@type":"Offset","begin":{"@type":"BeginAlignedCursor","value":1},"end":{"@type":"BeginAlignedCursor","value":3}}}"#.to_string(),
+        7 => format!(r#"{{"@type":"CompositeSelector","selectors":[{},{}]}}"#, text(0, 2), text(6, 8)),
+        8 => format!(r#"{{"@type":"MultiSelector","selectors":[{},{}]}}"#, res("r"), dset),
+        _ => format!(r#"{{"@type":"DirectionalSelector","selectors":[{},{}]}}"#, text(0, 2), res("r2")),
+    };
+    let ann = |id: &str, target: &str, data: &str| format!(r#"{{"@type":"Annotation","@id":"{}","target":{},"data":[{{"@type":"AnnotationData","@id":"{}","set":"s","key":"k","value":{{"@type":"String","value":"{}"}}}}]}}"#, id, target, data, data);
+    let a2_target = format!(r#"{{"@type":"AnnotationSelector","annotation":"A1","offset":{{"@type":"Offset","begin":{{"@type":"BeginAlignedCursor","value":{}}},"end":{{"@type":"BeginAlignedCursor","value":{}}}}}}}"#, b, e);
+    let head = r#"{"@type":"AnnotationStore","@id":"c19","resources":[{"@type":"TextResource","@id":"r","text":"abcdefghij"},{"@type":"TextResource","@id":"r2","text":"second"}],"annotationsets":[{"@type":"AnnotationDataSet","@id":"s","keys":[{"@type":"DataKey","@id":"k"}],"data":[{"@type":"AnnotationData","@id":"D0","key":"k","value":{"@type":"String","value":"D0"}}]}]"#;
+    let a0 = ann("A0", &text(0, 5), "D0");
+    let a1 = ann("A1", &target_json, "D1");
+    let a2 = ann("A2", &a2_target, "D2");
+    match mode {
+        0 => {
+            let doc = format!(r#"{},"annotations":[{},{},{}]}}"#, head, a0, a1, a2);
+            let n = doc.len();
+            Case { load: Load::JsonStr(doc, Config::default()), input_bytes: n, report: report_none, probe: true, note: "ann_offset_json" }
+        }
+        1 => {
+            let doc = format!(r#"{},"annotations":[{},{}]}}"#, head, a0, a1);
+            write_file(dir, "more.json", format!("[{}]", a2).as_bytes());
+            let n = doc.len() + a2.len();
+            Case { load: Load::AnnotateFile(doc, format!("{}/more.json", dir)), input_bytes: n, report: report_none, probe: true, note: "ann_offset_file" }
+        }
+        _ => {
+            csv_fixture(dir);
+            let a1row = match tkind {
+                0 => "A1,D0,s,ResourceSelector,r,,,,,,",
+                1 => "A1,D0,s,DataSetSelector,,,s,,,,",
+                2 => "A1,D0,s,DataKeySelector,,,s,,,k,",
+                3 => "A1,D0,s,AnnotationDataSelector,,,s,,,,D0",
+                4 => "A1,D0,s,AnnotationSelector,,A0,,,,,",
+                5 => "A1,D0,s,TextSelector,r,,,0,5,,",
+                6 => "A1,D0,s,AnnotationSelector,,A0,,1,3,,",
+                7 => "A1,D0,s,CompositeSelector;TextSelector;TextSelector,;r;r,;;,;;,;0;6,;2;8,,",
+                8 => "A1,D0,s,MultiSelector;ResourceSelector;DataSetSelector,;r;,;;,;;s,;;,;;,,",
+                _ => "A1,D0,s,DirectionalSelector;TextSelector;ResourceSelector,;r;r2,;;,;;,;0;,;2;,,",
+            };
+            let f = format!("{}A0,D0,s,TextSelector,r,,,0,5,,\n{}\nA2,D1,s,AnnotationSelector,,A1,,{},{},,\n", CSV_HEADER, a1row, b, e);
+            write_file(dir, "c.annotations.stam.csv", f.as_bytes());
+            Case { load: Load::File(format!("{}/c.store.stam.csv", dir), Config::default()), input_bytes: f.len() + 300, report: report_none, probe: true, note: "ann_offset_csv" }
+        }
     }
 }
 
@@ -770,6 +876,7 @@ fn child_main(batch: &str) -> ! {
             Load::JsonStr(s, cfg) => Some(AnnotationStore::from_str(s, cfg.clone())),
             Load::File(f, cfg) => Some(AnnotationStore::from_file(f, cfg.clone())),
             Load::Merge(first, second, cfg) => Some(AnnotationStore::from_str(first, cfg.clone()).and_then(|mut st| st.merge_json_str(second).map(|_| st))),
+            Load::AnnotateFile(doc, file) => Some(AnnotationStore::from_str(doc, Config::default()).and_then(|mut st| st.annotate_from_file(file).map(|_| ()).map(|_| st))),
             Load::Scale(d1, d4) => {
                 let t0 = cpu_ms();
                 let r1 = AnnotationStore::from_str(d1, Config::default());
@@ -964,7 +1071,7 @@ pub fn run_batch(reqs: &[Sx]) -> Vec<Obs> {
         if k >= reqs.len() {
             break;
         }
-        let probe_counts = reqs[k].nth(0).int() != 6;
+        let probe_counts = !matches!(reqs[k].nth(0).int(), 6 | 12);
         match obs[k].as_mut() {
             Some(o) => {
                 // the load was over: the lookups (or dropping the store) killed the process
@@ -990,7 +1097,7 @@ pub fn run_batch(reqs: &[Sx]) -> Vec<Obs> {
 /// the observations of one request as the driver expects them
 fn outputs(req: &Sx, o: &Obs) -> Vec<Sx> {
     match req.nth(0).int() {
-        1 | 2 | 7 | 8 | 9 => vec![l(vec![a(o.safety)]), if matches!(o.safety, 1 | 2 | 3) { l(vec![a(9)]) } else { o.result.clone() }],
+        1 | 2 | 7 | 8 | 9 | 11 => vec![l(vec![a(o.safety)]), if matches!(o.safety, 1 | 2 | 3) { l(vec![a(9)]) } else { o.result.clone() }],
         3 => vec![if o.safety == 1 { l(vec![a(-1)]) } else if o.safety == 2 { l(vec![a(-2)]) } else if o.safety != 0 { l(vec![a(-(o.safety))]) } else { o.result.clone() }],
         _ => vec![l(vec![a(o.safety)])],
     }
@@ -1416,6 +1523,14 @@ pub fn generate(out: &mut Out, tier: &str, seed: u64) {
     for w in 0..14i64 {
         reqs.push((l(vec![a(10), a(w)]), "file_references".into()));
     }
+    // (11) an annotation selector with offset on annotations of every target kind
+    for mode in 0..3i64 {
+        for tkind in 0..10i64 {
+            for (b, e) in [(0i64, 1i64), (0, 2), (1, 2), (0, 5), (2, 6), (3, 1), (0, 0), (0, 11)] {
+                reqs.push((l(vec![a(11), a(mode), a(tkind), a(b), a(e)]), "ann_offset".into()));
+            }
+        }
+    }
     // (8) scaling: n and 4n annotations with inline data
     for (hasid, samekey) in [(0i64, 1i64), (1, 1), (0, 0), (1, 0)] {
         reqs.push((l(vec![a(8), a(if thorough { 12000 } else { 8000 }), a(hasid), a(samekey)]), "scale".into()));
@@ -1509,11 +1624,23 @@ pub fn generate(out: &mut Out, tier: &str, seed: u64) {
             }
         }
     }
+    // (12) CBOR length headers rewritten
+    for base in [0i64, 1] {
+        let files = cache.files(base, "cbor", &wd).clone();
+        let nh = files.iter().find(|(n, _)| n.ends_with(".cbor")).map(|(_, c)| cbor_headers(c).len()).unwrap_or(0);
+        for h in 0..nh {
+            for v in 0..20i64 {
+                if base == 0 || thorough || rng.chance(1, 3) {
+                    reqs.push((l(vec![a(12), a(base), a(h as i64), a(v)]), "cbor_length_header".into()));
+                }
+            }
+        }
+    }
     emit_children(out, reqs, &mut stats);
     out.count_n("max_memory_growth_kb_measured", stats.max_grow_kb);
     out.count_n("max_cpu_ms_measured", stats.max_cpu_ms);
 }
 
-pub const RULE: &str = "String parsers in process: every string of length <=4 (thorough 5) over {+,-,0,1,9,x,space} and boundary values around 2^63/2^64 for Cursor, every keyword of Type/SelectorKind/DataFormat in case/letter variants (incl. U+212A, U+0130), every string of length <=3 (thorough 4) over {!,A,R,U+C9,U+FF21,U+1D400,a,0,1,9,+,-} through every id lookup. Documents in child processes (ulimit -v 2 GiB, stdin closed, hang = 60 s without progress; memory budget 48 MiB + input/4, cpu budget 1.5 s + 4 us/byte, both measured): annotations/data arrays of <=3 items over 10 identifier shapes x buildable or not x one or two arrays x strip_temp_ids on/off x empty or non-empty store, identifiers with numbers up to 2^64, composite targets over all pairs (thorough triples) of sub-selector kinds, random longer documents; CSV rows: every simple selector kind x reference/offset/key column shapes, complex rows over all pairs of sub-selector kinds with full, missing, short and empty columns, random rows; @include chains and cycles, \"-\" as include, self-referring manifests and other odd file references; the same arrays through merge_json_str; cpu time of n against 4n annotations with inline data (with/without ids, one key/one key each); CBOR nesting depth and out-of-range handles; generic mutations of library-written JSON (delete/duplicate/swap every node, retype, dangling/cyclic/temporary references, extreme integers, truncation, bit flips), CSV (truncation, bit flips, cell replacement in every file) and CBOR (truncation at every (quick: third) byte, bit flips). Non-trivial: the document loads and the lookups run. distinct = distinct request lines.";
+pub const RULE: &str = "String parsers in process: every string of length <=4 (thorough 5) over {+,-,0,1,9,x,space} and boundary values around 2^63/2^64 for Cursor, every keyword of Type/SelectorKind/DataFormat in case/letter variants (incl. U+212A, U+0130), every string of length <=3 (thorough 4) over {!,A,R,U+C9,U+FF21,U+1D400,a,0,1,9,+,-} through every id lookup. Documents in child processes (ulimit -v 2 GiB, stdin closed, hang = 60 s without progress; memory budget 48 MiB + input/4, cpu budget 1.5 s + 4 us/byte, both measured): annotations/data arrays of <=3 items over 10 identifier shapes x buildable or not x one or two arrays x strip_temp_ids on/off x empty or non-empty store, identifiers with numbers up to 2^64, composite targets over all pairs (thorough triples) of sub-selector kinds, random longer documents; CSV rows: every simple selector kind x reference/offset/key column shapes, complex rows over all pairs of sub-selector kinds with full, missing, short and empty columns, random rows; @include chains and cycles, \"-\" as include, self-referring manifests and other odd file references; the same arrays through merge_json_str; cpu time of n against 4n annotations with inline data (with/without ids, one key/one key each); CBOR nesting depth and out-of-range handles; an AnnotationSelector with offset on annotations of all ten target kinds x 8 offsets in JSON, annotate_from_file and CSV; every length header (string/array/map) of the CBOR files rewritten in 20 ways (huge values, 1/2/4/8-byte forms, indefinite, +-1, 0); generic mutations of library-written JSON (delete/duplicate/swap every node, retype, dangling/cyclic/temporary references, extreme integers, truncation, bit flips), CSV (truncation, bit flips, cell replacement in every file) and CBOR (truncation at every (quick: third) byte, bit flips). Non-trivial: the document loads and the lookups run. distinct = distinct request lines.";
 
 pub const EXHAUSTIVE: bool = true;
